@@ -105,6 +105,11 @@ class GotranPythonCodePrinter(PythonCodePrinter):
     def _print_Or(self, expr):
         return self._print_logical("logical_or", expr.args)
 
+    def _print_Mod(self, expr):
+        # Always use parentheses: '%' has the same precedence as '*' in python,
+        # so 'a*Mod(b, c)' must not be printed as 'a*b % c'
+        return f"({super()._print_Mod(expr)})"
+
     def _print_Not(self, expr):
         # The python operator 'not' only works for scalars
         return f"numpy.logical_not({self._print(expr.args[0])})"
